@@ -68,6 +68,13 @@ def configs(tier, seed):
     for order in itertools.permutations(range(3)):
         out.append({"name": f"spectral-shapes-order{''.join(map(str, order))}", "kind": "shapes", "order": list(order)})
     out.append({"name": "baseline-and-artifact-labels", "kind": "fixed"})
+    from harness import c04_kinetics as c04
+
+    for top in ("chain3-loss", "branched3", "chain2-loss"):
+        n, entries = c04.TOPOLOGIES[top]
+        for oi, order in enumerate(itertools.permutations(range(n))):
+            out.append({"name": f"decay-order-{top}-{oi}", "kind": "decay", "c04": {"name": f"kmatrix-{top}-order{oi}-je1", "kind": "kmatrix",
+                                                                                 "n": n, "entries": entries, "order": list(order), "j": "e1"}})
     batches = []
     for i in range(0, len(out), 10):
         batches.append({"name": f"batch-{i // 10}", "items": out[i : i + 10]})
@@ -81,6 +88,11 @@ def run_config(batch, rec):
     rec.assume_note("specifications are per label; see C07 for the oscillation / shape closed forms used here")
     core.Ctx.generic_models = False
     for cfg in batch["items"]:
+        if cfg["kind"] == "decay":
+            from harness import c04_kinetics as c04
+
+            c04._run_one(cfg["c04"], rec)  # labelled concentration columns against the rate equations, per declaration order
+            continue
         {"combine": _run_combine, "osc": _run_osc, "shapes": _run_shapes, "fixed": _run_fixed}[cfg["kind"]](cfg, rec)
 
 
@@ -279,6 +291,14 @@ def _replay_item(cfg):
     from glotaran.optimization.optimizer import Optimizer
 
     rng = np.random.default_rng(3)
+    if cfg["kind"] == "decay":
+        from harness import c04_kinetics as c04
+
+        for trial in ({}, {}):
+            v, d = c04._float_case(cfg["c04"], dict(trial))
+            if v:
+                return v, d
+        return False, "ok"
     with warnings.catch_warnings():
         warnings.simplefilter("ignore")
         if cfg["kind"] == "combine":
